@@ -119,6 +119,10 @@ def _equivalent(ref_fn, cur_fn, ref_mod, cur_mod, ref_units, cur_units, qual, fo
     return nr == ncur
 
 
+class _CannotSubstitute(Exception):
+    pass
+
+
 def _replace_nested(holder, name, new_node):
     """replace the FunctionDef called `name` that is defined directly in `holder` (not inside a deeper function)"""
     for fld in ("body", "orelse", "finalbody", "handlers"):
@@ -158,17 +162,55 @@ def substitute(tree: ast.Module, rel: str) -> dict:
     if not any(v == "equivalent" for v in status.values()):
         return status
 
+    def children(q, units):
+        """function units directly inside unit q (possibly through classes defined in q, but not through other functions)"""
+        out = []
+        for q2 in units:
+            if not q2.startswith(q + "."):
+                continue
+            mid = q2[len(q) + 1:].split(".")[:-1]
+            pre = q
+            ok = True
+            for part in mid:
+                pre = pre + "." + part
+                if pre in units:      # an intermediate *function*: q2 is a grandchild
+                    ok = False
+                    break
+            if ok:
+                out.append(q2)
+        return out
+
+    def holder_of(base, q, q2):
+        """the node whose body directly contains the def of q2 (base itself, or a class nested in it)"""
+        node = base
+        for part in q2[len(q) + 1:].split(".")[:-1]:
+            nxt = None
+            for st in ast.walk(node):
+                if isinstance(st, ast.ClassDef) and st.name == part:
+                    nxt = st
+                    break
+            if nxt is None:
+                return None
+            node = nxt
+        return node
+
     def build(q):
         """the node to use for unit q"""
         cur_node, ref_node = cu[q], ru.get(q)
-        base = copy.deepcopy(ref_node) if (ref_node is not None and eq.get(q)) else cur_node
-        src_units = ru if base is not cur_node else cu
-        for q2 in [x for x in src_units if x.startswith(q + ".") and "." not in x[len(q) + 1:]]:
-            nm = q2.split(".")[-1]
+        use_ref = ref_node is not None and eq.get(q)
+        base = copy.deepcopy(ref_node) if use_ref else cur_node
+        src_units = ru if use_ref else cu
+        for q2 in children(q, src_units):
             if q2 in cu and q2 in ru:
-                _replace_nested(base, nm, build(q2))
-            elif q2 in cu and base is cur_node:
-                pass
+                h = holder_of(base, q, q2)
+                if h is None or not _replace_nested(h, q2.split(".")[-1], build(q2)):
+                    raise _CannotSubstitute(q2)
+            elif use_ref:
+                raise _CannotSubstitute(q2)   # the reference has a nested function the current tree lacks
+        if use_ref:
+            for q2 in children(q, cu):
+                if q2 not in ru and status.get(q2) == "new":
+                    pass   # a new nested helper whose calls were inlined while proving q equivalent
         return base
 
     # top-level units: module functions and methods
@@ -178,7 +220,10 @@ def substitute(tree: ast.Module, rel: str) -> dict:
         needs = any(status.get(x) == "equivalent" for x in cu if x == q or x.startswith(q + "."))
         if not needs:
             continue
-        new = build(q)
+        try:
+            new = build(q)
+        except _CannotSubstitute:
+            continue
         if new is cu[q]:
             continue
         holder = tree
